@@ -435,8 +435,56 @@ func ruleRollback(w *World, r *Report, rule string) {
 	// the rollback may be carried out by a private helper that is handed a record of what this
 	// call did (undo := addUndo{isNew: !exists, key: nodeKey, …}; g.rollbackAdd(&undo))
 	restoredInHelper := false
+	viaRecord := false
 	if nDel == 0 {
 		nDel, restoredInHelper = rollbackThroughRecord(w, r, rule, g, fi, fl, sol, existsOf2(existsOf))
+		viaRecord = nDel > 0
+	}
+	if !viaRecord {
+		// a private helper called on the rejection path that deletes nodes it selects itself
+		// (by a property of the graph, not by what this call created)
+		for _, n := range fl.Nodes() {
+			if !sol.Before[n].Has("rejected") {
+				continue
+			}
+			for _, c := range callsIn(n, false) {
+				cal := callee(info, c)
+				if cal == nil || cal.Exported() || w.Decls[cal] == nil {
+					continue
+				}
+				for _, h := range w.Within(w.Decls[cal], 1) {
+					hinfo := h.Pkg.TypesInfo
+					for _, d := range callsIn(h.Decl.Body, true) {
+						id, ok := unparen(d.Fun).(*ast.Ident)
+						if !ok || id.Name != "delete" || len(d.Args) != 2 || fieldOf(hinfo, d.Args[0]) != g.nodes {
+							continue
+						}
+						// the key must come from a list the caller filled with created nodes
+						fromCreated := false
+						ast.Inspect(h.Decl.Body, func(x ast.Node) bool {
+							if rs, ok := x.(*ast.RangeStmt); ok && rs.Value != nil && isInside(d, rs.Body) && exprStr(rs.Value) == exprStr(d.Args[1]) {
+								if po := objOf(hinfo, rs.X); po != nil && isParamOf(h, hinfo, po) {
+									k := 0
+									for _, f := range h.Decl.Type.Params.List {
+										for _, nm := range f.Names {
+											if hinfo.Defs[nm] == po && k < len(c.Args) && createdLists[objOf(info, c.Args[k])] {
+												fromCreated = true
+											}
+											k++
+										}
+									}
+								}
+							}
+							return true
+						})
+						nDel++
+						r.Check(fromCreated, rule, fmt.Sprintf("%s#rollback-delete:%s/%s", fi.Name(), h.Obj.Name(), exprStr(d.Args[1])), d.Pos(), true,
+							"the rollback helper deletes only the nodes of a list that receives keys of nodes this call created",
+							"on the rejection path "+h.Name()+" deletes nodes it selects itself (delete(g.nodes, "+exprStr(d.Args[1])+") is not restricted to what this call created): a placeholder that existed before the rejected add - left by an earlier removal, or shared with another pending provider - is removed, so the graph is not left as it was")
+					}
+				}
+			}
+		}
 	}
 	if nDel == 0 {
 		r.Fail(rule, fi.Name()+"#rollback", fi.Decl.Pos(), "the rejection path of AddProvider removes nothing: a rejected provider stays in the graph")
